@@ -41,10 +41,14 @@ def cfg_folded_paraboloid(rng):
     f = R / 2
     fno = rng.choice([0.6, 0.8, 1.0, 2.0, 5.0]) if rng.random() < 0.7 else rng.uniform(0.6, 10)
     epd = f / fno
-    dist = dyadic(rng, 5, 300, 2)
+    # the fold mirror stands clear of the paraboloid's rim (edge sag r^2 / 2R): otherwise part of the paraboloid
+    # lies behind the plane the rays leave from, which no physical lay-out has
+    dist = math.ceil((epd / 2) ** 2 / (2 * R)) + dyadic(rng, 5, 300, 2)
     d = base([{'radius': 'inf', 'thickness': 'inf', 'material': AIR},
-              {'radius': 'inf', 'thickness': -dist, 'material': {'kind': 'mirror'}, 'is_stop': True},
-              {'radius': R, 'conic': -1.0, 'thickness': R / 2, 'material': {'kind': 'mirror'}},
+              {'radius': 'inf', 'thickness': -dist, 'material': {'kind': 'mirror'}},
+              # (the paraboloid is the stop: with the stop on the fold mirror and dist = R/2 the exit pupil would lie
+              #  in the image plane - a reference sphere of radius 0)
+              {'radius': R, 'conic': -1.0, 'thickness': R / 2, 'material': {'kind': 'mirror'}, 'is_stop': True},
               {'radius': 'inf', 'thickness': 0, 'material': AIR}], ['EPD', epd])
     return {'name': 'paraboloid mirror behind a flat fold mirror, object at infinity', 'desc': d,
             'image': (0.0, -dist + R / 2), 'real': True, 'params': {'R': R, 'fno': fno, 'dist': dist}}
